@@ -81,7 +81,11 @@ pub fn ix1d(tier: Tier) -> Vec<Ix> {
   for k in &u { v.push(Ix::S(*k)); }
   for a in &u { v.push(Ix::V(vec![*a])); }
   for a in &u { for b in &u { v.push(Ix::V(vec![*a, *b])); } }
-  if tier == Tier::Thorough { let w = [0i64, 1, 2, 3, 4, 5, 9, 10]; for a in w { for b in w { for c in w { v.push(Ix::V(vec![a, b, c])); } } } }
+  // every index vector of length 3 over a small pool, and of length 4 over {1,2,3,4} plus one invalid interior entry:
+  // permuted, repeated, contiguous-looking and out-of-range interiors
+  { let w: Vec<i64> = tier.pick(vec![0, 1, 2, 3, 4, 9], vec![0, 1, 2, 3, 4, 5, 9, 10]); for a in &w { for b in &w { for c in &w { v.push(Ix::V(vec![*a, *b, *c])); } } } }
+  for a in 1..=4i64 { for b in 1..=4i64 { for c in 1..=4i64 { for d in 1..=4i64 { if tier == Tier::Thorough || (a + 2 * b + 3 * c + d) % 3 == 0 { v.push(Ix::V(vec![a, b, c, d])); } } } } }
+  for (b, c) in [(0i64, 2i64), (9, 3), (2, 0), (3, 9)] { v.push(Ix::V(vec![1, b, c, 4])); }
   for a in &u { for b in &u { v.push(Ix::R(*a, *b, true)); v.push(Ix::R(*a, *b, false)); } }
   v.push(Ix::All);
   v.extend(masks_exhaustive(tier.pick(6, 8)));
@@ -103,6 +107,8 @@ pub fn ixdim(tier: Tier) -> Vec<Ix> {
   for k in [1i64, 2, 5] { v.push(Ix::V(vec![k])); }
   let w: Vec<i64> = tier.pick(vec![0, 1, 2, 4, 5], vec![0, 1, 2, 3, 4, 5, 6]);
   for a in &w { for b in &w { v.push(Ix::V(vec![*a, *b])); } }
+  // per-dimension index vectors of length 3: permutations, repeats, an invalid entry between valid ones
+  for t in [[1i64, 2, 3], [3, 2, 1], [1, 3, 2], [2, 2, 3], [1, 1, 3], [1, 0, 2], [1, 5, 2], [1, 9, 3], [2, 3, 1]] { v.push(Ix::V(t.to_vec())); }
   let rr = tier.pick(4, 6);
   for a in 0..=rr { for b in 0..=rr { v.push(Ix::R(a, b, true)); v.push(Ix::R(a, b, false)); } }
   v.push(Ix::All);
